@@ -203,8 +203,24 @@ type Gen struct {
 
 func (g *Gen) Name() string { return g.B.Name }
 
+// derive: like a generator whose New clones its receiver (`n := *g; return &n` - a prototype configured with options):
+// whatever state the receiver carries is carried into the new instance. Called on the registered prototype (no state)
+// that is a fresh instance; called on the instance of ANOTHER package it leaks that package's state (seeded change
+// C05-n: New invoked on the previous package's instance) and the rendered bytes show it.
+func (inst *Instance) derive(from *Instance) *Instance {
+	if from != nil {
+		for k, v := range from.Seen {
+			inst.Seen[k] = v
+		}
+		inst.Helper = from.Helper
+		inst.Calls = from.Calls
+		Current.Add(Event{Kind: "new-on-instance", Gen: inst.B.Name})
+	}
+	return inst
+}
+
 func (g *Gen) New(c gengo.Context) gengo.Generator {
-	inst := g.B.newInstance()
+	inst := g.B.newInstance().derive(g.Inst)
 	Current.Add(Event{Kind: "new", Pkg: pkgOf(c), Gen: g.B.Name, Detail: fmt.Sprint(inst.N)})
 	return &Gen{B: g.B, Inst: inst}
 }
@@ -227,7 +243,7 @@ func (g *Gen) GenerateType(c gengo.Context, named *types.Named) error {
 type AliasGen struct{ Gen }
 
 func (g *AliasGen) New(c gengo.Context) gengo.Generator {
-	inst := g.B.newInstance()
+	inst := g.B.newInstance().derive(g.Inst)
 	Current.Add(Event{Kind: "new", Pkg: pkgOf(c), Gen: g.B.Name, Detail: fmt.Sprint(inst.N)})
 	return &AliasGen{Gen{B: g.B, Inst: inst}}
 }
